@@ -40,7 +40,7 @@ type VerifPinEntry struct {
 	PinCounter uint64
 }
 
-// VerifBinID is one non-zero element of the binIDs vector.
+// VerifBinID is one non-zero element of the binIDs vector (bins 0..boson.MaxPO).
 type VerifBinID struct {
 	PO uint8
 	ID uint64
@@ -99,7 +99,8 @@ func (db *DB) verifDumpLocked() (d VerifDump, err error) {
 	if err != nil {
 		return d, err
 	}
-	for po := 0; po < 256; po++ {
+	// db.po is boson.Proximity, which never exceeds boson.MaxPO
+	for po := 0; po <= int(boson.MaxPO); po++ {
 		id, err := db.binIDs.Get(uint64(po))
 		if err != nil {
 			return d, err
